@@ -82,7 +82,7 @@ pub fn run(c: &Campaign<'_>) -> Outcome {
             .arg("-len_control=0")
             .arg("-use_value_profile=1")
             .arg(format!("-max_len={}", c.max_len))
-            .arg("-timeout=20")
+            .arg("-timeout=90")
             .arg("-rss_limit_mb=2048")
             .arg(format!("-artifact_prefix={}/", arts.display()))
             .stdin(Stdio::null())
